@@ -417,6 +417,10 @@ class Loops:
             rep.backs.append((list(sb.pc[len(base.pc) + len(cands):]),
                               {a: (cur.get(sym_name(a)).l if isinstance(cur.get(sym_name(a)), IntV) else None) for a, _ in int_syms}))
         rep.exit_kinds = [(kind, v, list(sx.pc[len(base.pc) + len(cands):])) for sx, kind, v in exits]
+        rep.exit_vals = []
+        for sx, kind, v in exits:
+            cur = current(sx)
+            rep.exit_vals.append({a: (cur.get(sym_name(a)).l if isinstance(cur.get(sym_name(a)), IntV) else None) for a, _ in int_syms})
         # ---- ranking
         if for_ctx is None:
             self._rank(rep, backs, int_syms, cands, current, sym_name)
@@ -606,7 +610,7 @@ class Loops:
         """accumulators over a collection of consecutive views of one buffer whose every step adds (at most) the extent
         of the element visited: the running total is bounded by the buffer, and equals the extent tiled at the end"""
         seq = for_ctx["seq"]
-        while seq[0] in ("copied",):
+        while seq[0] in ("copied", "map", "enumerate"):
             seq = seq[1]
         if seq[0] != "coll" or not (for_ctx["pos0"].is_const() and for_ctx["pos0"].c == 0):
             return
@@ -633,7 +637,7 @@ class Loops:
 
     def _ps_tile_facts(self, states, form, for_ctx):
         seq = for_ctx["seq"]
-        while seq[0] in ("copied",):
+        while seq[0] in ("copied", "map", "enumerate"):
             seq = seq[1]
         if seq[0] != "coll" or not states:
             return None
@@ -1179,7 +1183,7 @@ class Loops:
 
         def bind(s0, seq=seq, K=K, pos0=pos0, ref=ref, kname=kname):
             res = []
-            for s1, v in self.elem_of(s0, seq, pos0 + K, e):
+            for s1, u_, v in self._elem_with_base(s0, seq, pos0 + K, e):
                 s1 = s1 if s1 is not s0 else s0.clone()
                 if ref is not None:
                     # `for x in it.by_ref()`: inside the body the underlying iterator has consumed element k
@@ -1193,9 +1197,9 @@ class Loops:
                         # an abstract sequence (custom iterator): its k-th item is a symbolic value of the item type
                         v = I.symbolic(elem_pat["t"], (), (self.seq_key(seq), (pos0 + K).key()))
                     I.bind(s1, elem_pat, v)
-                s1.env[("ghost-elem", kname)] = v
+                s1.env[("ghost-elem", kname)] = u_       # the element of the underlying sequence (before map adaptors)
                 for a_, i0_, tinfo_, _ in ctx.get("tile_accs", ()):
-                    sl_ = self._first_slice(v)
+                    sl_ = self._first_slice(u_)
                     if sl_ is not None:
                         s1.pc.append(le(Lin.atom(a_) - i0_ + sl_.length(), Lin.atom(("len", tinfo_[0]))))
                 res.extend(self.instantiate_forall(s1, seq, pos0 + K))
